@@ -8,6 +8,7 @@ mod fixtures;
 mod gen_circuit;
 mod opcirc;
 mod ops;
+mod ops_ecc;
 mod ops_ff;
 mod pipeline;
 mod props;
